@@ -193,12 +193,15 @@ Call(n, i) == [name |-> n, inl |-> i]
 ImportsU == { <<>>,
               << Imp("moda", FALSE, <<>>) >>,
               << Imp("moda", TRUE, << <<"sa", "sa">>, <<"sb", "sc">> >>) >>,
-              << Imp("moda", FALSE, << <<"ra", "rb">> >>), Imp("modb", TRUE, << <<"sx", "sx">> >>) >> }
+              << Imp("moda", FALSE, << <<"ra", "rb">> >>), Imp("modb", TRUE, << <<"sx", "sx">> >>) >>,
+              \* a procedure imported under a local name (called as "lp" by CallsU's last element)
+              << Imp("modp", TRUE, << <<"lp", "rp">> >>) >> }
 
 CallsU == { <<>>,
             << Call("ca", FALSE) >>,
             << Call("ca", TRUE), Call("cb", FALSE) >>,
-            << Call("cb", FALSE), Call("ca", FALSE), Call("cb", TRUE) >> }
+            << Call("cb", FALSE), Call("ca", FALSE), Call("cb", TRUE) >>,
+            << Call("lp", FALSE), Call("ca", TRUE) >> }
 
 PlainType == [name |-> "ta", binds |-> <<>>, generics |-> <<>>]
 BoundType == [name |-> "tb", binds |-> << <<"pa", "pa">>, <<"pb", "pbimpl">> >>,
